@@ -3,6 +3,6 @@ CONSTANTS
   MaxCalls = 4
   Texts <- TextsDef
 SPECIFICATION Spec
-INVARIANT WellFormed
+INVARIANTS WellFormed Emit
 PROPERTY ThreadLocal
 CHECK_DEADLOCK FALSE
